@@ -6,6 +6,7 @@ import (
 	"os"
 	"path/filepath"
 	"strings"
+	"syscall"
 
 	"github.com/la5nta/wl2k-go/fbb"
 	"github.com/la5nta/wl2k-go/mailbox"
@@ -316,6 +317,29 @@ func runC02(ctx *Ctx) error {
 			sess(-1, -1)
 			check("storage-failure")
 			os.RemoveAll(blocked)
+		}
+		if di%4 == 3 {
+			// a complete session during which B's disk is full after 512 bytes of any file (file size
+			// limit of this process): the store fails PART-WAY; nothing half-written may stay
+			// behind under the message's name, or the retry is answered "already received"
+			m := r.Message(callA, r.Mid())
+			m.Header.Del("Cc")
+			m.Header.Set("To", callB)
+			m.SetBody(strings.Repeat("filling the disk, line after line\n", 40))
+			mailbox.NewDirHandler(da, false).AddOut(m)
+			queued[m.MID()], _ = m.Bytes()
+			var old syscall.Rlimit
+			if syscall.Getrlimit(syscall.RLIMIT_FSIZE, &old) == nil {
+				lim := old
+				lim.Cur = 512
+				if syscall.Setrlimit(syscall.RLIMIT_FSIZE, &lim) == nil {
+					cuts = append(cuts, "B-disk-full-after-512-bytes")
+					ctx.Mark(map[string]interface{}{"dir_history": di, "cuts": cuts})
+					sess(-1, -1)
+					syscall.Setrlimit(syscall.RLIMIT_FSIZE, &old)
+					check("disk-full")
+				}
+			}
 		}
 		if di%3 != 1 {
 			// a complete session in which B defers everything it is offered
